@@ -480,8 +480,11 @@ int TempResultToInt(TempResult* pResult) {
  * ------------------------------------------------------------------------ */
 
 Boolean MultiCharToInt(TempResult* pResult, unsigned MaxLen) {
+    /* only strings NonZString2Int() can convert (1..4 characters) are multi-character
+       constants; anything else stays a string and is left untouched for the caller */
     if ((pResult->Typ == TempString) && (pResult->Contents.str.len <= MaxLen)
-        && (pResult->Flags & eSymbolFlag_StringSingleQuoted)) {
+        && (pResult->Flags & eSymbolFlag_StringSingleQuoted)
+        && (NonZString2Int(&pResult->Contents.str) >= 0)) {
         TempResultToInt(pResult);
         return True;
     }
